@@ -1301,8 +1301,12 @@ impl PeerConnection {
 
         // For Offerer: extract parameters from local offer (our intended changes)
         // This allows Offerer to immediately update transceivers with new parameters
-        // that will be confirmed when answer is received
-        if desc.sdp_type == SdpType::Offer {
+        // that will be confirmed when answer is received.
+        // Only in `Stable`: in any other state the offer is rejected below, and a
+        // rejected call must leave the transceivers untouched.
+        if desc.sdp_type == SdpType::Offer
+            && *self.inner.signaling_state.borrow() == SignalingState::Stable
+        {
             let is_reinvite = {
                 let local = self.inner.local_description.lock();
                 local.is_some()
